@@ -39,6 +39,7 @@ EXPLANATION += (' R-C20-9: a list that collects one array per element (groupby g
 EXPLANATION += (" R-C20-10: a string attribute that the exporter creates from a Python bytes/str value (stored as a variable-length string, returned by h5py as str) is not decoded unconditionally by the importer. R-C20-2 requires the roll-back in every handler of an entity-creating block; R-C20-9 also compares the order classes of a flat array and of the sizes it is split by.")
 EXPLANATION += (" R-C20-11: the exporter reduces the repeated rows of the element-nodal frame to one row per node by selection (groupby().first() and the like), never by an arithmetic aggregation (mean of k equal floats is not the float; integer columns become floats). R-C20-12: the importer computes the membership of mesh ids in a stored set without assume_unique=True (the id levels repeat every id). Both have a built-in example that must match on every run.")
 EXPLANATION += (" R-C20-13: imported variables are attached to the mesh by a join on the index labels; giving a frame another frame's index by position (set_axis / set_index / .index = other.index) is a violation (built-in example). R-C20-3 also rejects a shortcut in the range-checking function whose condition does not establish a signed type of at most 32 bits.")
+EXPLANATION += (" R-C20-14: the groupby over the element id that produces the element table of the file sorts its keys (elements ordered by id). R-C20-15: add_node_set validates the given ids against the index level 'node_id' and add_element_set against 'element_id' (level literals reaching get_level_values directly or through a helper).")
 ASSUMPTIONS = [
     "h5py semantics: group[name] addresses a child, create_group/create_dataset create it, attrs is a key/value store",
     "string formatting with %s inserts exactly one path component",
@@ -363,6 +364,58 @@ def _vmap_attr_writes(model, prog):
     return out
 
 
+def _check_element_order(ctx, prog, exp_ci):
+    """R-C20-14: 'elements ordered by id' - the element table of the file is written group by group of a groupby over the element
+    id, and the importer keeps the file order.  The groupby has to sort its keys (the default); sort=False writes the elements in
+    the order of their first row in the caller's frame."""
+    ctx.rule("R-C20-14", floor=1, what="the groupby over the element id that produces the element table sorts its keys")
+    n = 0
+    for name, defs in sorted(exp_ci.methods.items()):
+        fi = defs[-1]
+        for c in ast.walk(fi.node):
+            if isinstance(c, ast.Call) and isinstance(c.func, ast.Attribute) and c.func.attr == "groupby" and \
+                    any("element_id" in norm_text(a) for a in list(c.args) + [k.value for k in c.keywords if k.arg in ("by", "level")]):
+                n += 1
+                srt = next((k.value for k in c.keywords if k.arg == "sort"), None)
+                if srt is not None and const_value(srt) is not True:
+                    ctx.violated(fi, c, "%s groups the mesh by element id with sort=%s: the elements are written in the order of their "
+                                 "first appearance in the frame, not ordered by id; the importer keeps the file order" % (name, norm_text(srt)),
+                                 text="unsorted element groupby in " + name)
+                else:
+                    ctx.holds(fi, c, "%s: groupby over the element id sorts its keys" % name)
+    if n == 0:
+        raise AnalysisError("no groupby over the element id found in the exporter")
+
+
+def _check_set_levels(ctx, prog, exp_ci):
+    """R-C20-15: a node set is validated against the node ids of the mesh, an element set against its element ids.  The index
+    level literals reaching get_level_values (directly or as arguments of a helper of the exporter) in add_node_set are exactly
+    {'node_id'}, in add_element_set exactly {'element_id'}."""
+    ctx.rule("R-C20-15", floor=2, what="add_node_set validates against 'node_id', add_element_set against 'element_id'")
+    for meth, want in (("add_node_set", "node_id"), ("add_element_set", "element_id")):
+        fi = prog.lookup_method(exp_ci, meth)
+        if fi is None:
+            raise AnalysisError("VMAPExport.%s vanished" % meth)
+        lits = set()
+        for c in ast.walk(fi.node):
+            if isinstance(c, ast.Call):
+                direct = isinstance(c.func, ast.Attribute) and c.func.attr in ("get_level_values", "unique", "isin", "droplevel")
+                helper = isinstance(c.func, ast.Attribute) and isinstance(c.func.value, ast.Name) and c.func.value.id in ("self", "VMAPExport", "cls")
+                if direct or helper:
+                    for a in list(c.args) + [k.value for k in c.keywords]:
+                        v = const_value(a)
+                        if isinstance(v, str) and v.endswith("_id"):
+                            lits.add(v)
+        if lits == {want}:
+            ctx.holds(fi, fi.node, "%s validates against the level %r" % (meth, want))
+        elif not lits:
+            raise AnalysisError("%s: no index level literal found" % meth)
+        else:
+            ctx.violated(fi, fi.node, "%s validates the given ids against the index level(s) %s; a %s is a set of %ss: valid sets are refused "
+                         "and sets of foreign ids are stored, filtering by the stored set then returns other members"
+                         % (meth, sorted(lits), meth[4:].replace("_", " "), want[:-3]), text="%s validates against %s" % (meth, sorted(lits)))
+
+
 def run(ctx):
     prog = ctx.prog
     exp_ci = prog.cls(EXP + ":VMAPExport")
@@ -437,6 +490,8 @@ def run(ctx):
     ctx.attempt(lambda c: _check_selection_only(c, prog, exp_ci))
     ctx.attempt(lambda c: _check_membership(c, prog, imp_ci))
     ctx.attempt(lambda c: _check_label_joins(c, prog, imp_ci))
+    ctx.attempt(lambda c: _check_element_order(c, prog, exp_ci))
+    ctx.attempt(lambda c: _check_set_levels(c, prog, exp_ci))
 
     # ---------------------------------------------------------------- R-C20-4 read only
     ctx.rule("R-C20-4", floor=2, what="importer opens the file read-only and reaches no write call")
